@@ -226,7 +226,7 @@ func (a *absConfig) yaml() string {
 				continue
 			}
 			if len(s.Deps) > 0 {
-				fmt.Fprintf(&b, "      depends_on: [%s]\n", strings.Join(s.Deps, ", "))
+				fmt.Fprintf(&b, "      depends_on: [%s]\n", quoteAll(s.Deps))
 			}
 		}
 	}
@@ -235,6 +235,14 @@ func (a *absConfig) yaml() string {
 		fmt.Fprintf(&b, "  %s:\n    watch: [\"*.nothing\"]\n    task: %s\n", w, t)
 	}
 	return b.String()
+}
+
+func quoteAll(in []string) string {
+	var qs []string
+	for _, d := range in {
+		qs = append(qs, fmt.Sprintf("%q", d))
+	}
+	return strings.Join(qs, ", ")
 }
 
 func c18One(x *ctx, c refCase) bool {
@@ -331,9 +339,12 @@ func refEdits() []refEdit {
 			}
 			for d := range s.Deps {
 				out = append(out, refEdit{Kind: "dep", Pipeline: p, Stage: i, Dep: d, Value: "ghost"})
+				out = append(out, refEdit{Kind: "dep", Pipeline: p, Stage: i, Dep: d, Value: ""})
 				out = append(out, refEdit{Kind: "dep", Pipeline: p, Stage: i, Dep: d, Value: base.Pipelines[p][0].eff()})
 			}
 			out = append(out, refEdit{Kind: "add-dep", Pipeline: p, Stage: i, Value: "ghost"})
+			out = append(out, refEdit{Kind: "add-dep", Pipeline: p, Stage: i, Value: ""}) // a blank entry names no stage either
+			out = append(out, refEdit{Kind: "add-dep", Pipeline: p, Stage: i, Value: " "})
 			// a dependency on a stage of another pipeline is dangling too
 			other := "c1"
 			if p == "pc" {
